@@ -14,7 +14,7 @@ types / sorters / imports / values / fields.  `sort.Sort` and `sort.Slice` enter
 contract (`SortContract`), the key order through antisymmetry (Go's `<` on strings and integers
 is a strict total order).  Tie A: the list of ALL map walks in the generator packages is
 regenerated on every run (`Generated/MapRanges.lean`) and `every_map_range_site_is_matched`
-demands that each of them is matched below to one of these theorems or to a stated reason why
+demands that each of them - with the fingerprint of what its loop body does - is matched below to one of these theorems or to a stated reason why
 its order cannot reach the file; a new, unmatched walk breaks that obligation.
 
 The first sentence (byte-identical files across runs) additionally depends on packages.Load,
@@ -129,19 +129,32 @@ theorem genum_dup_processing_commutes (g₁ g₂ : List DupGroup) (hp : g₁.Per
 
 /-- The map walks known to this file, each with the reason its order cannot reach the output. -/
 def matched : List (Site × Reason) := [
-  (⟨"gsort/gen/sorter_desc.go", "createSorterDesc", "range descs"⟩,
-    .sortedAfter "gsort_output_perm_invariant (the collecting walk; the validating walk returns the same constant error text whichever invalid sorter it meets first)"),
-  (⟨"genum/gen/generate.go", "processDuplicates", "range data"⟩,
-    .commutes "genum_dup_processing_commutes (the warnings it logs go to stderr, not to the file)"),
-  (⟨"gencommon/imports.go", "*ImportHandler.GetActive", "range ih.imports"⟩,
+  (⟨"gsort/gen/sorter_desc.go", "createSorterDesc", "range descs",
+      ["assign=:result", "append:result"]⟩,
+    .sortedAfter "gsort_output_perm_invariant"),
+  (⟨"gsort/gen/sorter_desc.go", "createSorterDesc", "range descs",
+      ["if", "define:err", "call:desc.Fields.Validate", "return/2"]⟩,
+    .noOutput "validates only; returns the same constant error text whichever invalid sorter it meets first, and then nothing is written"),
+  (⟨"genum/gen/generate.go", "processDuplicates", "range data",
+      ["define:primary", "define:safe", "call:duplicates.getPrimary", "if", "call:len", "range:traits",
+       "assign=:traits[·].Traits", "call:slices.DeleteFunc", "return/1", "if", "continue", "call:log.Printf",
+       "call:duplicates.stringList"]⟩,
+    .commutes "genum_dup_processing_commutes (the only write is the in-place deletion of non-primary rows; the warnings go to stderr, not to the file)"),
+  (⟨"gencommon/imports.go", "*ImportHandler.GetActive", "range ih.imports",
+      ["if", "assign=:result", "append:result"]⟩,
     .sortedAfter "imports_perm_invariant"),
-  (⟨"gencommon/comments.go", "CommentsFromObj", "range cmap"⟩,
+  (⟨"gencommon/comments.go", "CommentsFromObj", "range cmap",
+      ["if", "define:v", "define:ok", "call:len", "call:len", "return/1", "call:FromCommentGroup", "call:len"]⟩,
     .noOutput "returns at the single key whose GenDecl holds the type spec (a spec belongs to one declaration); only the type-level comment of gerror.Factory, which gerror's template does not use"),
-  (⟨"gencommon/interface.go", "allpkgs.findPKgByName", "range pkg.Imports"⟩,
+  (⟨"gencommon/interface.go", "allpkgs.findPKgByName", "range pkg.Imports",
+      ["if", "return/2"]⟩,
     .noOutput "looks for the single key equal to the wanted package path (map keys are distinct)"),
-  (⟨"gencommon/interface.go", "allpkgs.namedTypeToInterface", "range embeddedIface.ambiguous"⟩,
+  (⟨"gencommon/interface.go", "allpkgs.namedTypeToInterface", "range embeddedIface.ambiguous",
+      ["if", "call:ignoreEmbeddedMethodsNamed.Has", "continue", "call:ignoreEmbeddedMethodsNamed.Add",
+       "call:result.ambiguous.Add", "delete:methodsToAdd"]⟩,
     .noOutput "struct branch only; genum/gerror/gsort resolve the interface type gerror.Factory and index its methods by name (subject of C19)"),
-  (⟨"gencommon/interface.go", "allpkgs.namedTypeToInterface", "range methodsToAdd"⟩,
+  (⟨"gencommon/interface.go", "allpkgs.namedTypeToInterface", "range methodsToAdd",
+      ["assign=:result.Methods", "append:result.Methods"]⟩,
     .noOutput "struct branch only; genum/gerror/gsort resolve the interface type gerror.Factory and index its methods by name (subject of C19)")
 ]
 
@@ -151,7 +164,8 @@ theorem every_map_range_site_is_matched :
     ∀ s ∈ Generated.MapRanges.sites, s ∈ matched.map (·.1) := by
   decide
 
-/-- ... and no entry of the table is stale (each names a walk that still exists). -/
+/-- ... and no entry of the table is stale: each names a walk that still exists AND whose loop body
+still does what the reason was written for (same effect fingerprint). -/
 theorem no_stale_match : ∀ s ∈ matched.map (·.1), s ∈ Generated.MapRanges.sites := by
   decide
 
